@@ -1,1 +1,403 @@
-//! placeholder
+//! E5 — independent minimal DER encoder / TLV reader.
+//!
+//! Shares no code with `rpki::…::encode` or bcder's encoder: the point is that
+//! the library's own builder and decoder can agree with each other and both
+//! be wrong. Only what RFC 5652/6488/6482/9286/3779 structures need.
+
+//------------ primitives ------------------------------------------------------
+
+pub const T_BOOL: u8 = 0x01;
+pub const T_INT: u8 = 0x02;
+pub const T_BITSTR: u8 = 0x03;
+pub const T_OCTSTR: u8 = 0x04;
+pub const T_NULL: u8 = 0x05;
+pub const T_OID: u8 = 0x06;
+pub const T_UTF8: u8 = 0x0c;
+pub const T_PRINTABLE: u8 = 0x13;
+pub const T_IA5: u8 = 0x16;
+pub const T_UTCTIME: u8 = 0x17;
+pub const T_GENTIME: u8 = 0x18;
+pub const T_SEQ: u8 = 0x30;
+pub const T_SET: u8 = 0x31;
+
+/// Definite, minimal length octets.
+pub fn len_octets(n: usize) -> Vec<u8> {
+    if n < 0x80 { vec![n as u8] }
+    else {
+        let mut b = Vec::new();
+        let mut v = n;
+        while v > 0 { b.push((v & 0xff) as u8); v >>= 8; }
+        b.reverse();
+        let mut out = vec![0x80 | b.len() as u8];
+        out.extend(b);
+        out
+    }
+}
+
+pub fn tlv(tag: u8, content: &[u8]) -> Vec<u8> {
+    let mut out = vec![tag];
+    out.extend(len_octets(content.len()));
+    out.extend_from_slice(content);
+    out
+}
+
+pub fn cat(items: &[Vec<u8>]) -> Vec<u8> {
+    let mut out = Vec::new();
+    for i in items { out.extend_from_slice(i) }
+    out
+}
+
+pub fn seq(items: &[Vec<u8>]) -> Vec<u8> { tlv(T_SEQ, &cat(items)) }
+
+/// SET with the members in the order given (order is an enumerated dimension).
+pub fn set_unsorted(items: &[Vec<u8>]) -> Vec<u8> { tlv(T_SET, &cat(items)) }
+
+/// SET OF in DER order (ascending octet strings of the encodings).
+pub fn set_of(items: &[Vec<u8>]) -> Vec<u8> {
+    let mut v: Vec<Vec<u8>> = items.to_vec();
+    v.sort();
+    tlv(T_SET, &cat(&v))
+}
+
+/// Context-specific tag [n]; constructed or primitive.
+pub fn ctx(n: u8, constructed: bool, content: &[u8]) -> Vec<u8> {
+    tlv(0x80 | if constructed { 0x20 } else { 0 } | n, content)
+}
+
+/// Non-negative INTEGER from big-endian magnitude octets (minimal).
+pub fn int_bytes(mag: &[u8]) -> Vec<u8> {
+    let mut i = 0;
+    while i + 1 < mag.len() && mag[i] == 0 { i += 1 }
+    let mut c = Vec::new();
+    if mag.is_empty() { c.push(0) }
+    else {
+        if mag[i] & 0x80 != 0 { c.push(0) }
+        c.extend_from_slice(&mag[i..]);
+    }
+    tlv(T_INT, &c)
+}
+
+pub fn int_u(v: u128) -> Vec<u8> { int_bytes(&v.to_be_bytes()) }
+
+pub fn boolean(b: bool) -> Vec<u8> { tlv(T_BOOL, &[if b { 0xff } else { 0 }]) }
+pub fn null() -> Vec<u8> { vec![T_NULL, 0] }
+pub fn octets(b: &[u8]) -> Vec<u8> { tlv(T_OCTSTR, b) }
+pub fn ia5(s: &[u8]) -> Vec<u8> { tlv(T_IA5, s) }
+pub fn printable(s: &str) -> Vec<u8> { tlv(T_PRINTABLE, s.as_bytes()) }
+pub fn utf8(s: &str) -> Vec<u8> { tlv(T_UTF8, s.as_bytes()) }
+
+pub fn bitstring(unused: u8, b: &[u8]) -> Vec<u8> {
+    let mut c = vec![unused];
+    c.extend_from_slice(b);
+    tlv(T_BITSTR, &c)
+}
+
+/// OBJECT IDENTIFIER from its arcs.
+pub fn oid(arcs: &[u64]) -> Vec<u8> {
+    let mut c = Vec::new();
+    let first = arcs[0] * 40 + arcs[1];
+    let mut push = |mut v: u64, c: &mut Vec<u8>| {
+        let mut tmp = vec![(v & 0x7f) as u8];
+        v >>= 7;
+        while v > 0 { tmp.push(0x80 | (v & 0x7f) as u8); v >>= 7; }
+        tmp.reverse();
+        c.extend(tmp);
+    };
+    push(first, &mut c);
+    for a in &arcs[2..] { push(*a, &mut c) }
+    tlv(T_OID, &c)
+}
+
+/// Civil time as the RFC 5280 rule says: UTCTime 1950..=2049, else GeneralizedTime.
+#[derive(Clone, Copy, Debug, PartialEq, Eq, PartialOrd, Ord)]
+pub struct Civil { pub y: i32, pub mo: u32, pub d: u32, pub h: u32, pub mi: u32, pub s: u32 }
+
+pub fn utctime(t: Civil) -> Vec<u8> {
+    tlv(T_UTCTIME, format!("{:02}{:02}{:02}{:02}{:02}{:02}Z", t.y.rem_euclid(100), t.mo, t.d, t.h, t.mi, t.s).as_bytes())
+}
+pub fn gentime(t: Civil) -> Vec<u8> {
+    tlv(T_GENTIME, format!("{:04}{:02}{:02}{:02}{:02}{:02}Z", t.y, t.mo, t.d, t.h, t.mi, t.s).as_bytes())
+}
+pub fn time_auto(t: Civil) -> Vec<u8> {
+    if (1950..=2049).contains(&t.y) { utctime(t) } else { gentime(t) }
+}
+
+//------------ well-known OIDs --------------------------------------------------
+
+pub const OID_SIGNED_DATA: &[u64] = &[1, 2, 840, 113549, 1, 7, 2];
+pub const OID_CONTENT_TYPE: &[u64] = &[1, 2, 840, 113549, 1, 9, 3];
+pub const OID_MESSAGE_DIGEST: &[u64] = &[1, 2, 840, 113549, 1, 9, 4];
+pub const OID_SIGNING_TIME: &[u64] = &[1, 2, 840, 113549, 1, 9, 5];
+pub const OID_BINARY_SIGNING_TIME: &[u64] = &[1, 2, 840, 113549, 1, 9, 16, 2, 46];
+pub const OID_SHA256: &[u64] = &[2, 16, 840, 1, 101, 3, 4, 2, 1];
+pub const OID_RSA_ENCRYPTION: &[u64] = &[1, 2, 840, 113549, 1, 1, 1];
+pub const OID_SHA256_WITH_RSA: &[u64] = &[1, 2, 840, 113549, 1, 1, 11];
+pub const OID_CT_ROA: &[u64] = &[1, 2, 840, 113549, 1, 9, 16, 1, 24];
+pub const OID_CT_MANIFEST: &[u64] = &[1, 2, 840, 113549, 1, 9, 16, 1, 26];
+pub const OID_CT_ASPA: &[u64] = &[1, 2, 840, 113549, 1, 9, 16, 1, 49];
+pub const OID_CT_PROTOCOL: &[u64] = &[1, 2, 840, 113549, 1, 9, 16, 1, 28];
+
+//------------ RFC 5652 / 6488 SignedData ----------------------------------------
+
+/// One signed attribute: SEQUENCE { OID, SET { value } }.
+pub fn attribute(oid_arcs: &[u64], values: &[Vec<u8>]) -> Vec<u8> {
+    seq(&[oid(oid_arcs), set_unsorted(values)])
+}
+
+pub fn attr_content_type(ct: &[u64]) -> Vec<u8> { attribute(OID_CONTENT_TYPE, &[oid(ct)]) }
+pub fn attr_message_digest(d: &[u8]) -> Vec<u8> { attribute(OID_MESSAGE_DIGEST, &[octets(d)]) }
+pub fn attr_signing_time(t: Vec<u8>) -> Vec<u8> { attribute(OID_SIGNING_TIME, &[t]) }
+pub fn attr_binary_signing_time(secs: u64) -> Vec<u8> { attribute(OID_BINARY_SIGNING_TIME, &[int_u(secs as u128)]) }
+
+/// Everything that goes into a SignedData; every field is free so that each
+/// acceptance condition can be violated independently.
+#[derive(Clone, Debug)]
+pub struct SignedDataParts {
+    pub version: u128,
+    pub digest_alg_set: Vec<u8>,          // SET OF AlgorithmIdentifier, complete TLV
+    pub econtent_type: Vec<u64>,
+    pub econtent: Vec<u8>,                // raw eContent octets (wrapped in OCTET STRING here)
+    pub certificates: Vec<Vec<u8>>,       // complete certificate TLVs
+    pub crls: Vec<Vec<u8>>,               // complete CRL TLVs ([1] IMPLICIT), empty = absent
+    pub si_version: u128,
+    pub sid: Vec<u8>,                     // key identifier octets ([0] IMPLICIT)
+    pub si_digest_alg: Vec<u8>,           // AlgorithmIdentifier TLV
+    pub signed_attrs: Vec<Vec<u8>>,       // attribute TLVs in the order to be written
+    pub sig_alg: Vec<u8>,                 // AlgorithmIdentifier TLV
+    pub signature: Vec<u8>,
+}
+
+pub fn alg_sha256(with_null: bool) -> Vec<u8> {
+    if with_null { seq(&[oid(OID_SHA256), null()]) } else { seq(&[oid(OID_SHA256)]) }
+}
+pub fn alg_rsa_encryption() -> Vec<u8> { seq(&[oid(OID_RSA_ENCRYPTION), null()]) }
+pub fn alg_sha256_with_rsa() -> Vec<u8> { seq(&[oid(OID_SHA256_WITH_RSA), null()]) }
+
+/// The octets the signature is computed over: the signed attributes as a
+/// universal SET OF (tag 0x31) with a proper DER definite length.
+pub fn signed_attrs_tbs(attrs: &[Vec<u8>]) -> Vec<u8> { tlv(T_SET, &cat(attrs)) }
+
+pub fn signed_data(p: &SignedDataParts) -> Vec<u8> {
+    let mut sd = vec![
+        int_u(p.version),
+        p.digest_alg_set.clone(),
+        seq(&[oid(&p.econtent_type), ctx(0, true, &octets(&p.econtent))]),
+    ];
+    if !p.certificates.is_empty() { sd.push(ctx(0, true, &cat(&p.certificates))) }
+    if !p.crls.is_empty() { sd.push(ctx(1, true, &cat(&p.crls))) }
+    let si = seq(&[
+        int_u(p.si_version),
+        ctx(0, false, &p.sid),
+        p.si_digest_alg.clone(),
+        ctx(0, true, &cat(&p.signed_attrs)),
+        p.sig_alg.clone(),
+        octets(&p.signature),
+    ]);
+    sd.push(set_unsorted(&[si]));
+    seq(&[oid(OID_SIGNED_DATA), ctx(0, true, &seq(&sd))])
+}
+
+//------------ RFC 9286 manifest, RFC 6482 ROA, ASPA econtent ---------------------
+
+pub struct MftEntry { pub name: Vec<u8>, pub hash_unused: u8, pub hash: Vec<u8> }
+
+pub fn manifest_content(version: Option<u128>, number: &[u8], this: Vec<u8>, next: Vec<u8>,
+                        alg: &[u64], entries: &[MftEntry]) -> Vec<u8> {
+    let mut items = Vec::new();
+    if let Some(v) = version { items.push(ctx(0, true, &int_u(v))) }
+    items.push(int_bytes(number));
+    items.push(this);
+    items.push(next);
+    items.push(oid(alg));
+    let fl: Vec<Vec<u8>> = entries.iter().map(|e| seq(&[ia5(&e.name), bitstring(e.hash_unused, &e.hash)])).collect();
+    items.push(seq(&fl));
+    seq(&items)
+}
+
+/// ROA address: BIT STRING prefix + optional maxLength.
+pub struct RoaAddr { pub bits: Vec<u8>, pub unused: u8, pub max_len: Option<u128> }
+
+pub fn roa_addr_from(addr: u128, len: u8, fam_bits: u8, max_len: Option<u128>) -> RoaAddr {
+    // addr is left-aligned within fam_bits
+    let full = if fam_bits == 32 { ((addr as u32).to_be_bytes()).to_vec() } else { addr.to_be_bytes().to_vec() };
+    let nbytes = (len as usize).div_ceil(8);
+    let unused = (nbytes * 8 - len as usize) as u8;
+    RoaAddr { bits: full[..nbytes].to_vec(), unused, max_len }
+}
+
+pub fn roa_content(version: Option<u128>, asn: u128, v4: Option<&[RoaAddr]>, v6: Option<&[RoaAddr]>) -> Vec<u8> {
+    let fam = |afi: [u8; 2], addrs: &[RoaAddr]| {
+        let a: Vec<Vec<u8>> = addrs.iter().map(|x| {
+            let mut it = vec![bitstring(x.unused, &x.bits)];
+            if let Some(m) = x.max_len { it.push(int_u(m)) }
+            seq(&it)
+        }).collect();
+        seq(&[octets(&afi), seq(&a)])
+    };
+    let mut items = Vec::new();
+    if let Some(v) = version { items.push(ctx(0, true, &int_u(v))) }
+    items.push(int_u(asn));
+    let mut fams = Vec::new();
+    if let Some(a) = v4 { fams.push(fam([0, 1], a)) }
+    if let Some(a) = v6 { fams.push(fam([0, 2], a)) }
+    items.push(seq(&fams));
+    seq(&items)
+}
+
+/// ASPA eContent (draft-ietf-sidrops-aspa-profile): version [0] 1, customer, providers.
+pub fn aspa_content(version: Option<u128>, customer: u128, providers: &[u128]) -> Vec<u8> {
+    let mut items = Vec::new();
+    if let Some(v) = version { items.push(ctx(0, true, &int_u(v))) }
+    items.push(int_u(customer));
+    let p: Vec<Vec<u8>> = providers.iter().map(|x| int_u(*x)).collect();
+    items.push(seq(&p));
+    seq(&items)
+}
+
+//------------ RFC 3779 extension bodies -------------------------------------------
+
+/// IPAddress as BIT STRING of the first `len` bits of a left-aligned address.
+pub fn ip_prefix_bits(addr: u128, len: u8, fam_bits: u8) -> Vec<u8> {
+    let a = roa_addr_from(addr, len, fam_bits, None);
+    bitstring(a.unused, &a.bits)
+}
+
+/// RFC 3779 range end encoding: min drops trailing zero bits, max drops trailing one bits.
+pub fn ip_range(min: u128, max: u128, fam_bits: u8) -> Vec<u8> {
+    let width = fam_bits as u32;
+    let shift = 128 - width;
+    let (mn, mx) = (min << shift, max << shift); // left-align in 128 for counting
+    let tz = if min == 0 { width } else { (mn.trailing_zeros() - shift).min(width) };
+    let min_len = (width - tz) as u8;
+    let ones = if fam_bits == 32 { (!(max as u32)).trailing_zeros().min(32) } else { (!max).trailing_zeros().min(128) };
+    let _ = mx;
+    let max_len = (width - ones) as u8;
+    // left-aligned within fam_bits
+    seq(&[ip_prefix_bits(min, min_len, fam_bits), ip_prefix_bits(max, max_len, fam_bits)])
+}
+
+pub enum IpItem { Prefix(u128, u8), Range(u128, u128) }
+
+/// IPAddrBlocks with one family: SEQUENCE OF IPAddressFamily.
+pub fn ip_addr_blocks(afi: [u8; 2], fam_bits: u8, choice: Option<&[IpItem]>) -> Vec<u8> {
+    let body = match choice {
+        None => null(), // inherit
+        Some(items) => {
+            let v: Vec<Vec<u8>> = items.iter().map(|i| match i {
+                IpItem::Prefix(a, l) => ip_prefix_bits(*a, *l, fam_bits),
+                IpItem::Range(a, b) => ip_range(*a, *b, fam_bits),
+            }).collect();
+            seq(&v)
+        }
+    };
+    seq(&[seq(&[octets(&afi), body])])
+}
+
+pub enum AsItem { Id(u128), Range(u128, u128) }
+
+/// ASIdentifiers: SEQUENCE { asnum [0] EXPLICIT choice }.
+pub fn as_identifiers(choice: Option<&[AsItem]>) -> Vec<u8> {
+    let body = match choice {
+        None => null(),
+        Some(items) => {
+            let v: Vec<Vec<u8>> = items.iter().map(|i| match i {
+                AsItem::Id(a) => int_u(*a),
+                AsItem::Range(a, b) => seq(&[int_u(*a), int_u(*b)]),
+            }).collect();
+            seq(&v)
+        }
+    };
+    seq(&[ctx(0, true, &body)])
+}
+
+//------------ TLV reader (lenient, for mutation and inspection) --------------------
+
+#[derive(Clone, Debug)]
+pub struct Node {
+    pub tag: u8,
+    pub start: usize,       // offset of the tag octet
+    pub hdr: usize,         // header length
+    pub len: usize,         // content length
+    pub children: Vec<Node>,
+}
+
+impl Node {
+    pub fn end(&self) -> usize { self.start + self.hdr + self.len }
+    pub fn content<'a>(&self, buf: &'a [u8]) -> &'a [u8] { &buf[self.start + self.hdr..self.end()] }
+    pub fn whole<'a>(&self, buf: &'a [u8]) -> &'a [u8] { &buf[self.start..self.end()] }
+    pub fn constructed(&self) -> bool { self.tag & 0x20 != 0 }
+    /// Depth-first list of all nodes with their paths.
+    pub fn walk<'a>(&'a self, path: &mut Vec<usize>, out: &mut Vec<(Vec<usize>, &'a Node)>) {
+        out.push((path.clone(), self));
+        for (i, c) in self.children.iter().enumerate() {
+            path.push(i); c.walk(path, out); path.pop();
+        }
+    }
+}
+
+/// Parses definite-length single-octet-tag TLVs in buf[pos..end]. Returns
+/// None when the bytes are not well-formed in that sense. OCTET STRING and
+/// BIT STRING contents that parse completely as TLVs are descended into when
+/// `dive` is set (extension values, eContent).
+pub fn parse_tlvs(buf: &[u8], mut pos: usize, end: usize, dive: bool, depth: u32) -> Option<Vec<Node>> {
+    let mut out = Vec::new();
+    while pos < end {
+        let tag = buf[pos];
+        if tag & 0x1f == 0x1f { return None }
+        if pos + 1 >= end { return None }
+        let l0 = buf[pos + 1];
+        let (hdr, len) = if l0 < 0x80 { (2, l0 as usize) } else {
+            let n = (l0 & 0x7f) as usize;
+            if n == 0 || n > 4 || pos + 2 + n > end { return None }
+            let mut v = 0usize;
+            for k in 0..n { v = (v << 8) | buf[pos + 2 + k] as usize }
+            (2 + n, v)
+        };
+        if pos + hdr + len > end { return None }
+        let mut node = Node { tag, start: pos, hdr, len, children: Vec::new() };
+        if depth < 24 {
+            if tag & 0x20 != 0 {
+                node.children = parse_tlvs(buf, pos + hdr, pos + hdr + len, dive, depth + 1)?;
+            } else if dive && tag == T_OCTSTR && len >= 2 {
+                if let Some(ch) = parse_tlvs(buf, pos + hdr, pos + hdr + len, dive, depth + 1) {
+                    if ch.len() == 1 && ch[0].tag & 0x20 != 0 { node.children = ch }
+                }
+            }
+        }
+        out.push(node);
+        pos += hdr + len;
+    }
+    Some(out)
+}
+
+pub fn parse_one(buf: &[u8], dive: bool) -> Option<Node> {
+    let v = parse_tlvs(buf, 0, buf.len(), dive, 0)?;
+    if v.len() == 1 { v.into_iter().next() } else { None }
+}
+
+#[cfg(test)]
+mod test {
+    use super::*;
+    #[test]
+    fn basics() {
+        assert_eq!(int_u(0), [2, 1, 0]);
+        assert_eq!(int_u(127), [2, 1, 127]);
+        assert_eq!(int_u(128), [2, 2, 0, 128]);
+        assert_eq!(int_u(256), [2, 2, 1, 0]);
+        assert_eq!(oid(OID_SHA256), [6, 9, 0x60, 0x86, 0x48, 1, 0x65, 3, 4, 2, 1]);
+        assert_eq!(len_octets(127), [127]);
+        assert_eq!(len_octets(128), [0x81, 128]);
+        assert_eq!(len_octets(256), [0x82, 1, 0]);
+        let s = seq(&[int_u(1), octets(&seq(&[null()]))]);
+        let n = parse_one(&s, true).unwrap();
+        assert_eq!(n.children.len(), 2);
+        assert_eq!(n.children[1].children.len(), 1);
+        // 10.0.0.0 - 10.0.0.255 => min /24 bits "10.0.0", max drops trailing ones
+        let r = ip_range(0x0a000000, 0x0a0000ff, 32);
+        assert_eq!(r, seq(&[bitstring(1, &[10]), bitstring(0, &[10, 0, 0])]));
+        let r = ip_range(0, 0xffff_ffff, 32);
+        assert_eq!(r, seq(&[bitstring(0, &[]), bitstring(0, &[])]));
+        let r = ip_range(1, 2, 32);
+        assert_eq!(r, seq(&[bitstring(0, &[0, 0, 0, 1]), bitstring(0, &[0, 0, 0, 2])]));
+    }
+}
